@@ -58,8 +58,8 @@ func c20RelativeDirProbe(t fataler, st *kvh.Stats) {
 		return
 	}
 	cwd0, err := os.Getwd()
-	if err != nil {
-		return
+	if err != nil || !filepath.IsAbs(e.Scratch) || !filepath.IsAbs(e.Out) {
+		return // everything else the process writes must be named absolutely while its working directory moves
 	}
 	defer func() { _ = os.Chdir(cwd0) }()
 	cs := map[string]string{"property": "C20", "kind": "probe-c20-relative-dir", "note": "fixed schedules, see c20RelativeDirProbe"}
